@@ -114,8 +114,16 @@ def has_room_for(F, e, n):
                 break
         if last is not None and not (F.env.now - last >= spacing + 2e-5):
             return False          # the previous item has not cleared the entry yet
+        if last is not None and getattr(F, "conv_stalled_since_put", {}).get(e.id):
+            return False          # a head item waited at the exit since the last entry: the last item may have been held up inside the entry zone
         if not e.accumulating and F.store_of(e).ready_items:
             return False          # a non-accumulating belt is stopped while its head waits
+        ready = F.store_of(e).ready_items
+        for r in F.items.values():
+            if r.loc == ("edge", e) and not any(r.obj is x for x in ready):
+                t_in = next((h[1] for h in reversed(r.hist) if h[0] == "put" and h[2] is e), None)
+                if t_in is not None and F.env.now - t_in >= e.capacity * spacing - 2e-5:
+                    return False  # an item reaches the exit in this very instant: the belt deliberately admits nothing before it has been moved to the exit
     return True
 
 
@@ -175,7 +183,22 @@ def line(props=("C03", "C08"), n_items=3, w=1, blocking=True, src_blocking=True,
     return fn
 
 
+def conv_watch(F):
+    """step hook: per conveyor, did a head item wait at the exit at any moment since the last item entered?"""
+    seen = getattr(F, "_cw_seen", 0)
+    for ev in F.events[seen:]:
+        if ev[0] == "put" and ev[2].__class__.__name__ == "ConveyorBelt":
+            F.conv_stalled_since_put[ev[2].id] = False
+    F._cw_seen = len(F.events)
+    for e in F.edges:
+        if e.__class__.__name__ == "ConveyorBelt" and F.store_of(e).ready_items:
+            F.conv_stalled_since_put[e.id] = True
+
+
 def install(F):
+    if any(e.__class__.__name__ == "ConveyorBelt" for e in F.edges):
+        F.conv_stalled_since_put = {}
+        F.step_hooks.append(conv_watch)
     F.step_hooks.append(on_put_record_out)
     F.step_hooks.append(lambda F: reconcile_discards(F))
     if "C01" in F.props or "C03" in F.props:
@@ -192,6 +215,7 @@ def install(F):
         F.instant_hooks.append(c09_instant)
     if "C15" in F.props:
         F.step_hooks.append(c15_step)
+        F.instant_hooks.append(c15_instant)
 
 
 def _fair(F):
@@ -388,7 +412,8 @@ def c09_step(F):
                     k = F.last_out_choice.get(n.id)
                     es = [n.out_edges[k]] if k is not None and 0 <= k < len(n.out_edges) else []
                 for e in es:
-                    if F.has_room(e):
+                    # every granted space token counts (a sibling worker's too); conveyors: plus their admission rules
+                    if has_room_for(F, e, None):
                         F.soft("C09:non-blocking-node-dropped-an-item-although-an-out-edge-had-room@" + cls, {"edge": e.id})
                         break
 
@@ -453,6 +478,25 @@ def c15_step(F):
                     if j is not None and j < idx:
                         F.soft("C15:first-available-skipped-a-lower-index-edge-that-could-serve", {"node": n.id, "side": side, "took": idx, "skipped": j})
     F._c15_seen = len(F.events)
+
+
+def c15_instant(F):
+    """FIRST_AVAILABLE on the out side of a non-blocking node picks by asking the edges: the edge it commits to must be able to serve at that
+    instant when some out-edge can (a blocking node reserves on all edges and takes the first grant, checked in c15_step)"""
+    for n in F.nodes:
+        if n.__class__.__name__ not in ("Machine", "Splitter", "Combiner", "Source") or getattr(n, "blocking", True):
+            continue
+        if getattr(n, "out_edge_selection", None) != "FIRST_AVAILABLE":
+            continue
+        for t in F.standing(kind="put", node=n):
+            if t.granted:
+                continue
+            F.ctx.hit("C15:nonblocking-first-available-wait-seen")
+            for j, e2 in enumerate(n.out_edges):
+                if e2 is not t.edge and has_room_for(F, e2, None):
+                    F.soft("C15:first-available-committed-to-an-edge-that-cannot-serve-while-another-can",
+                           {"node": n.id, "chosen": t.edge.id, "could": e2.id})
+                    break
 
 
 def c15_final(F):
@@ -571,7 +615,8 @@ def fan(props=("C03", "C08", "C10"), n_src=2, n_out=1, n_items=2, w=1, blocking=
             k = sinks[0] if (sink_fanin and sinks) else F.add_node(Sink(env, f"K{j}"))
             if k not in sinks:
                 sinks.append(k)
-            e = _edge(F, out_kind, f"OUT{j}", out_cap, od, **ckw)
+            # out_kind may be a tuple: one kind per out-edge
+            e = _edge(F, out_kind[j] if isinstance(out_kind, (tuple, list)) else out_kind, f"OUT{j}", out_cap, od, **ckw)
             if second_machine and j == 0:
                 # a second machine behind the first out-edge: M -> OUT0 -> M2 -> TAIL -> K0
                 pd2 = ctx.real("pd2", 0, 4)
